@@ -68,11 +68,14 @@ func parseHTTPDateCompat(dateStr string) (t time.Time, err error) {
 }
 
 func (r *Response) ExpiresHeader() (t time.Time, found bool, valid bool) {
-	expiresStr := r.Data.Header.Get("Expires")
-	if expiresStr == "" {
+	values := r.Data.Header.Values("Expires")
+	if len(values) == 0 {
 		return
 	}
+	// A present but empty (hence invalid) Expires is an explicit expiry in the
+	// past, not an absent one (RFC 9111 §5.3): heuristics do not apply.
 	found = true
+	expiresStr := values[0]
 	if t, valid = RawTime(expiresStr).Value(); valid {
 		return
 	}
